@@ -19,6 +19,8 @@ CIRC = {"closed": 0, "open": 1, "half_open": 2}
 OPC = {"tick": 0, "run": 1, "reset": 2, "clear": 3, "log": 4, "begin": 5, "end": 6}
 PLACES = {"z": "InZ", "y": "InY"}
 ZCODE = {None: 0, "EXECUTE": 1, "PERMIT": 2, "BLOCK": 3, "FAILURE": 4}     # anything else: 5
+# what the caller's on_block / on_permit observer does if it is called during an operation
+CBS = {"ok": "CbReturns", "raise": "CbRaises", "base": "CbRaises"}
 
 # request outcome classes -> (executor behaviour, assessor behaviour) under the AND gate
 OUTCOME = {
@@ -40,9 +42,42 @@ class Abandon(BaseException):
     """Ends a request that the history leaves suspended inside an agent (after the last observation)."""
 
 
+class ObserverDown(Exception):
+    """Raised by the caller's on_block / on_permit observer."""
+
+
+class ObserverExit(BaseException):
+    """Raised by the caller's observer; not an Exception (like KeyboardInterrupt / SystemExit / GeneratorExit)."""
+
+
+def cb_of(op):
+    """What the observer does if it is called during this operation: the optional last field of run / begin / end."""
+    n = {"run": 5, "begin": 7, "end": 2}.get(op[0])
+    return op[n] if n is not None and len(op) > n else "ok"
+
+
+def with_cb(op, mode):
+    n = {"run": 5, "begin": 7, "end": 2}.get(op[0])
+    if n is None or len(op) < n:
+        return list(op)
+    return list(op[:n]) + [mode]
+
+
+def hooks_of(cfg):
+    """(on_block installed, on_permit installed)"""
+    cb = cfg.get("callbacks")
+    return (cb is True or cb == "block", cb is True or cb == "permit")
+
+
+def answer_of(st):
+    """The loop's answer to the request of a step: the result run() returned, or - when run() raised the observer's
+    exception instead - the result it had handed to the observer."""
+    return st["cbres"] if st.get("cbres") is not None else st["res"]
+
+
 def script_of(op):
     """(executor behaviour, assessor behaviour) of a scripted request, None for anything else."""
-    if op[0] == "run" and len(op) == 5:
+    if op[0] == "run" and len(op) in (5, 6):
         return (op[2], op[3])
     if op[0] == "begin":
         return (op[3], op[4])
@@ -94,8 +129,16 @@ class C08(Check):
             "from the cache at once, two requests for one prompt} x thresholds 1,2 (thorough: 3, and all 6 gate logics x 24 verdict pairs), "
             "breaker disabled for two of them, plus every word of length <= 4 for threshold 1 (thorough: <= 5 for threshold 1, <= 4 for threshold 2) over {begin ok, begin failing, "
             "end oldest, failure, success, advance below / by the timeout, reset} with a begin before an end; "
-            "40% of the loops with silent=False (stdout captured; every print path of run/_check_circuit/_record_*/_print_result), 35% with "
-            "recording on_block/on_permit callbacks (their call counts are observed), 10% with timeout_seconds set; "
+            "40% of the loops with silent=False (stdout captured; every print path of run/_check_circuit/_record_*/_print_result), 10% with "
+            "timeout_seconds set; OBSERVERS: 55% of the loops get on_block and/or on_permit callbacks (both / only one) that count their "
+            "calls and remember the result they were handed, and in two thirds of those histories the observer RAISES (an Exception, one "
+            "time in six a BaseException) in all / 60% / 30% of the operations during which it is called - after a success, an intentional "
+            "block, an executor failure, a signal mismatch, for whole requests and for requests that had been suspended (End), in CLOSED, as "
+            "the probe, as a straggler answered while OPEN; a run() that raises the observer's own exception is the observation 2 + the "
+            "result the observer was handed (any other exception ends the history); enumerated: all 6 gate logics x 24 verdict pairs with "
+            "both observers raising (AND: also one observer only, BaseException), every word of length <= 3 over the 9 symbols for "
+            "threshold 2, <= 2 for threshold 1 (thorough: <= 4 for threshold 2, <= 3 for thresholds 1,3) and half (thorough: all) of the enumerated overlap scenarios "
+            "with observers that raise whenever called; "
             "get_circuit_breaker_stats()/get_statistics() are read before and after every operation; "
             "three enumerated + 0.2% generated histories of 1000..2200 operations over up to 1500 distinct prompts reach the caps of "
             "1000 cache entries (eviction by smallest timestamp, ties, a clock set back, eviction next to expiry) and 1000 logged results; "
@@ -121,7 +164,11 @@ class C08(Check):
                   "request suspended inside an agent is answered later, on the breaker and at the clock of that moment): invariant, never open "
                   "before the threshold, isolation of every ARRIVING request while open with stragglers answered meanwhile (no outcome of a "
                   "straggler closes the breaker or clears the count; a failed one restarts the timeout), OPEN is left only by a manual reset or by "
-                  "a request arriving after the timeout; sequential histories and begin+end-at-once are the special cases. The model is tied to the code by evaluating it in Coq on every generated "
+                  "a request arriving after the timeout; sequential histories and begin+end-at-once are the special cases; and over all such "
+                  "histories with on_block / on_permit observers installed that RAISE in any of the operations in which they are called "
+                  "(kop/kstep/krun): the loop state and every computed result are those of the history without observers "
+                  "(c08_callbacks_never_move_the_breaker), run() raises only after the bookkeeping and only for a fresh gate result, and the "
+                  "threshold / blocks / probe / isolation theorems restated for these histories. The model is tied to the code by evaluating it in Coq on every generated "
                   "history the implementation ran under a virtual clock with stub agents (exhaustive for short histories).")
     LEVEL_NOTE = ("Trusts: Coq kernel+VM; the correspondence harness; time modelled as integer microseconds, one clock reading per "
                   "run() before the agents and one after; agents as scripted stubs; the 1000-entry results log is not modelled (its accessor is "
@@ -136,8 +183,15 @@ class C08(Check):
                "ATP_Store, optionally advances the clock, then returns an ActionProtein or raises); a few monitor-only histories run the "
                "real BioAgents",
                "the 1000-entry results log and the text of the console output are not modelled: get_results_log and silent=False are "
-               "exercised as operations/configurations that must leave every observation of the model unchanged; on_block/on_permit are "
-               "benign recording callbacks (counted; callbacks that raise are outside the property); the cache cap of 1000 entries IS modelled",
+               "exercised as operations/configurations that must leave every observation of the model unchanged; the cache cap of 1000 "
+               "entries IS modelled",
+               "READING (observers that raise): on_block / on_permit are the caller's code. The property lists the request outcomes "
+               "{success, intentional block, executor failure, agent exception, cache hit}; what the caller's observer does afterwards is "
+               "not one of them, so the outcome of a request - and with it everything the property says about the breaker (blocks are never "
+               "counted, never open before the threshold is reached in total, a successful probe closes and clears, a failed probe counts "
+               "once) - is decided by what the agents did, whether the observer returns or raises. Whether the observer's exception reaches "
+               "the caller of run() is NOT demanded either way by the monitor (the unchanged code lets it through; the model says so and the "
+               "correspondence check compares it); when it does, the request's answer is the result the observer was handed",
                "overlapping requests: a request gives up control only inside executor.express() / assessor.express() (stub agents, one thread per "
                "begun request, hand-shaking with the driver so that exactly one thread runs at a time); pre-emption between two lines of run() "
                "outside the agents is not explored; overlapping histories stay far below the 1000-entry cache cap (the model's cache list moves a "
@@ -154,7 +208,7 @@ class C08(Check):
     ASSUMPTIONS = ["failure_threshold, recovery_timeout, gate_logic, enable_circuit_breaker are not reassigned after construction",
                    "concurrent run() calls interleave only at the agents' express() calls (requests suspended there while others run); "
                    "arbitrary pre-emption between bytecodes of run() is not covered",
-                   "on_block / on_permit callbacks return normally and do not call back into the loop"]
+                   "on_block / on_permit callbacks may raise (anything) but do not call back into the loop (no run()/reset from inside an observer)"]
 
     # -- generation --------------------------------------------------------
     def translate(self):
@@ -180,7 +234,8 @@ class C08(Check):
                "cache": rng.random() < 0.5, "ttl_us": ttl, "gate": gate, "cost": rng.choice([10, 10, 7, 1])}
         # knobs that must be transparent to the breaker: console output, recording callbacks, the unused per-operation timeout
         cfg["silent"] = rng.random() < 0.6
-        cfg["callbacks"] = rng.random() < 0.35
+        # which observers the caller installed: none / both / only on_block / only on_permit
+        cfg["callbacks"] = rng.choice([False] * 9 + [True] * 7 + ["block", "block", "permit", "permit"])
         if rng.random() < 0.1:
             cfg["op_timeout"] = rng.choice([0.0, 0.001, 30.0, -1.0])
         return cfg
@@ -262,8 +317,18 @@ class C08(Check):
                 ops.append(self._rand_tick(rng, cfg["timeout_us"], cfg["ttl_us"]) if rng.random() < 0.3
                            else self._rand_run(rng, (0.1, 0.1), cfg["timeout_us"], 900))
                 ops.append(self._rand_run(rng, (0.1, 0.1), cfg["timeout_us"], 901))
+            if cfg["callbacks"] and rng.random() < 0.65:
+                # the caller's observers RAISE (an Exception, sometimes a BaseException) during some or all of the
+                # operations in which they are called
+                p = rng.choice([1.0, 0.6, 0.6, 0.3])
+                ops = [with_cb(o, rng.choice(["raise"] * 5 + ["base"])) if rng.random() < p else o for o in ops]
             out.append({"cfg": cfg, "ops": ops})
         return out
+
+    def _raising(self, case, mode="raise", hooks=True, tag="raise"):
+        """The same history with observers installed that raise in every operation in which they are called."""
+        cfg = dict(case["cfg"], callbacks=hooks, silent=case["cfg"].get("silent", True))
+        return {"cfg": cfg, "ops": [with_cb(o, mode) for o in case["ops"]], "word": f"{case.get('word', '')}!{tag}"}
 
     # -- requests that overlap on the loop --------------------------------------------------------------------
     def _overlap_cases(self):
@@ -462,11 +527,35 @@ class C08(Check):
                     out.append({"cfg": {"enabled": True, "thr": 2, "timeout_us": 10 * US, "cache": False, "ttl_us": 300 * US,
                                         "gate": gate, "cost": 10, "silent": False, "callbacks": True},
                                 "ops": ops, "word": f"{gate}:{z}/{y}"})
+        # observers that RAISE.  Every gate logic x every pair of agent behaviours, as above, with both observers raising;
+        # under AND also with only one of them installed and with a BaseException
+        for c in [c for c in out if ":" in c.get("word", "") and c["cfg"].get("callbacks") is True]:
+            out.append(self._raising(c))
+            if c["cfg"]["gate"] == "and":
+                out.append(self._raising(c, hooks="block", tag="raise-on_block-only"))
+                out.append(self._raising(c, hooks="permit", tag="raise-on_permit-only"))
+                out.append(self._raising(c, mode="base", tag="raise-base"))
+        # every word of length <= 3 over the 9 symbols for threshold 2, <= 2 for threshold 1 (thorough: <= 3 for thresholds 1 and 3,
+        # <= 4 for threshold 2) with
+        # observers that raise whenever they are called: after a success, an intentional block, an executor failure;
+        # not called for a refusal, a cache hit, an agent exception
+        rplan = {1: 2, 2: 3} if self.tier == "quick" else {1: 3, 2: 4, 3: 3}
+        for thr, top in rplan.items():
+            for n in range(1, top + 1):
+                for k, w in enumerate(itertools.product(alphabet, repeat=n)):
+                    c = self._raising(self._symbolic(thr, "".join(w)),
+                                      mode="base" if k % 11 == 5 else "raise", hooks=[True, True, "block", "permit"][k % 4])
+                    c["cfg"]["silent"] = k % 3 != 1
+                    out.append(c)
         # the property's own witnesses, always present
         out.append(self._symbolic(2, "FFFFF"))
         out.append(self._symbolic(4, "FXFX-S=S"))
         out.append(self._symbolic(3, "FFF=F-S=S"))
-        out += self._overlap_cases()
+        ov = self._overlap_cases()
+        out += ov
+        # requests that overlap, answered (End) with an observer that raises
+        out += [self._raising(c, mode="base" if i % 7 == 3 else "raise") for i, c in enumerate(ov)
+                if self.tier != "quick" or i % 2 == 0]
         out += self._overlap_words()
         # a third of the enumerated histories with console output, a quarter with recording callbacks, some with the
         # results-log accessor between every two operations (all three must be invisible)
@@ -548,15 +637,27 @@ class C08(Check):
         L.datetime = FakeDT
         sink = io.StringIO()
         cb = {"block": 0, "permit": 0}
+        cur = {"mode": "ok", "cbres": None, "raised": None}     # the operation being carried out
         kw = {}
-        if cfg.get("callbacks"):
-            # benign recording callbacks (the property says nothing about callbacks that raise)
-            def on_block(result):
-                cb["block"] += 1
 
-            def on_permit(result):
-                cb["permit"] += 1
-            kw.update(on_block=on_block, on_permit=on_permit)
+        def observer(kind):
+            # the caller's observer: counts the call, remembers what it was handed, then returns or raises as the
+            # operation during which it is called says
+            def f(result):
+                cb[kind] += 1
+                cur["cbres"] = answer(result)
+                if cur["mode"] == "raise":
+                    cur["raised"] = ObserverDown(kind)
+                    raise cur["raised"]
+                if cur["mode"] == "base":
+                    cur["raised"] = ObserverExit(kind)
+                    raise cur["raised"]
+            return f
+        hb, hp = hooks_of(cfg)
+        if hb:
+            kw["on_block"] = observer("block")
+        if hp:
+            kw["on_permit"] = observer("permit")
         if cfg.get("op_timeout") is not None:
             kw["timeout_seconds"] = cfg["op_timeout"]
         try:
@@ -617,15 +718,17 @@ class C08(Check):
                     rq["res"] = loop.run(f"p{rq['prompt']}")
                 except Abandon:
                     pass
-                except BaseException as e:  # noqa - run() is not supposed to raise
-                    rq["exc"] = type(e).__name__
+                except BaseException as e:  # noqa - run() raises only what the caller's observer raised
+                    rq["exc"] = e
                 finally:
                     rq["finished"] = True
                     rq["evt"].set()
 
             def collect(rq):
                 if "exc" in rq:
-                    raise RuntimeError(rq["exc"])
+                    if rq["exc"] is cur["raised"]:
+                        raise rq["exc"]
+                    raise RuntimeError(type(rq["exc"]).__name__)
                 return answer(rq["res"])
 
             obs, trace = [], []
@@ -635,6 +738,8 @@ class C08(Check):
                 exc = None
                 loglen = None
                 extra = {}
+                cur.update(mode=cb_of(op), cbres=None, raised=None)
+                cb_raised = False
                 mark = sink.tell()
                 try:
                     with contextlib.redirect_stdout(sink):
@@ -683,13 +788,19 @@ class C08(Check):
                             res = answer(r)
                 except common.Hang:
                     raise
-                except Exception as e:  # run() is not supposed to raise
-                    exc = type(e).__name__
+                except BaseException as e:  # noqa
+                    if e is cur["raised"]:
+                        cb_raised = True     # run() let the exception of the caller's observer through to the caller
+                    elif isinstance(e, Exception):
+                        exc = type(e).__name__   # run() is not supposed to raise anything else
+                    else:
+                        raise
                 after = snap()
                 sink.seek(mark)
                 printed = sink.read()
                 step = {"op": op, "before": before, "after": after, "res": res, "exc": exc, "printed": printed, "loglen": loglen,
-                        "script": script_of(op), **extra}
+                        "script": script_of(op), "cbres": cur["cbres"], "cb_raised": cb_raised,
+                        "cb_swallowed": cur["raised"] is not None and not cb_raised, **extra}
                 if op[0] == "log" and exc is None:
                     # read-only accessor: no row - the model has no such operation, so every later row shows that the
                     # call changed nothing
@@ -698,6 +809,10 @@ class C08(Check):
                 row = [OPC[op[0]]]
                 if exc is not None:
                     row += [-1, 0, 0, 0, 0, 0]
+                elif cb_raised:
+                    # run() raised the observer's exception: what the observer had been handed
+                    c = cur["cbres"]
+                    row += [2, int(c["success"]), int(c["blocked"]), c["action"], int(c["cached"]), ZCODE.get(c["zout"], 5)]
                 elif res is None:
                     row += [0, 0, 0, 0, 0, 0]
                 else:
@@ -737,18 +852,20 @@ class C08(Check):
                 yb = "Raises" if y == "raise" else f"(Returns {YV[y]})"
                 return f"(mkReq {cz(prompt)} {zb} {yb} {cz(dur)})"
             if op[0] == "tick":
-                ops.append(f"Seq (Tick {cz(op[1])})")
+                o = f"Seq (Tick {cz(op[1])})"
             elif op[0] == "reset":
-                ops.append("Seq Reset")
+                o = "Seq Reset"
             elif op[0] == "clear":
-                ops.append("Seq ClearCache")
+                o = "Seq ClearCache"
             elif op[0] == "begin":
-                ops.append(f"Begin {cz(op[1])} {req(op[2], op[3], op[4], op[5])} {PLACES[op[6]]}")
+                o = f"Begin {cz(op[1])} {req(op[2], op[3], op[4], op[5])} {PLACES[op[6]]}"
             elif op[0] == "end":
-                ops.append(f"End {cz(op[1])}")
+                o = f"End {cz(op[1])}"
             else:
-                ops.append(f"Seq (Run {req(op[1], op[2], op[3], op[4])})")
-        return ctuple(cfg, cbool(bool(c.get("callbacks"))), clist(ops))
+                o = f"Seq (Run {req(op[1], op[2], op[3], op[4])})"
+            ops.append(f"({o}, {CBS[cb_of(op)]})")
+        hb, hp = hooks_of(c)
+        return ctuple(cfg, f"(mkHooks {cbool(hb)} {cbool(hp)})", clist(ops))
 
     # -- the property, on the implementation's trace ------------------------
     def monitor(self, case, obs, trace):
@@ -761,8 +878,16 @@ class C08(Check):
         last_fail = None           # clock reading when the most recent request failed
         flying = {}                # id -> was the request admitted as a probe; requests suspended inside an agent
         for i, st in enumerate(trace["steps"]):
-            op, b, a, res = st["op"], st["before"], st["after"], st["res"]
+            # the answer to the request: the result run() returned - or, when the caller's own on_block / on_permit
+            # observer raised and run() let that exception through, the result it had handed to the observer.  The
+            # property says nothing about whether an observer's exception reaches the caller; everything it says about
+            # the breaker (what counts as a failure, when it opens, closes, isolates) is demanded either way
+            op, b, a, res = st["op"], st["before"], st["after"], answer_of(st)
             where = f"step {i} {op}"
+            if st.get("cb_raised"):
+                where += f" (on_{'block' if res['blocked'] else 'permit'} raised; it had been handed {res})"
+            elif st.get("cb_swallowed"):
+                where += f" (the observer raised after it had been handed {st['cbres']}; run() returned {st['res']})"
             if st["exc"]:
                 return Violation("C08/raises", f"{where}: {st['exc']} escaped")
             if op[0] == "reset":
@@ -886,7 +1011,7 @@ class C08(Check):
         self.extra_cov["real_agent_histories"] = n
 
     def nontrivial(self, case, obs, trace):
-        return any(is_failure(s.get("script"), s["res"]) or s["after"]["state"] != 0 for s in trace.get("steps", []))
+        return any(is_failure(s.get("script"), answer_of(s)) or s["after"]["state"] != 0 for s in trace.get("steps", []))
 
     def classify(self, case, obs, trace):
         c = case["cfg"]
@@ -895,8 +1020,10 @@ class C08(Check):
               "silent" if c.get("silent", True) else "verbose", "callbacks" if c.get("callbacks") else "no-callbacks"]
         if c.get("op_timeout") is not None:
             ks.append("timeout_seconds-set")
+        hb, hp = hooks_of(c)
+        ks.append("hooks=" + ("both" if hb and hp else "on_block" if hb else "on_permit" if hp else "none"))
         for s in trace.get("steps", []):
-            op, b, a, res = s["op"], s["before"], s["after"], s["res"]
+            op, b, a, res = s["op"], s["before"], s["after"], answer_of(s)
             if s.get("printed"):
                 for key, tag in (("Cache hit", "cache-hit"), ("half-open", "half-open"), ("re-opened", "re-opened"),
                                  ("Circuit opened", "opened"), ("Circuit closed", "closed"), ("BLOCKED by", "blocked"),
@@ -928,6 +1055,19 @@ class C08(Check):
                 ks.append("executor-failure-behind-assessor-block")
             if a["cb_block"] > b["cb_block"] or a["cb_permit"] > b["cb_permit"]:
                 ks.append("callback-invoked")
+            elif cb_of(op) != "ok" and (hb or hp):
+                ks.append(f"raising-observer-not-called/out={oc}")
+            if s.get("cb_raised"):
+                stn = ['closed', 'open', 'half_open'][b['state']] if b['state'] in (0, 1, 2) else str(b['state'])
+                ks += ["observer-raised", f"observer-raised/out={oc}", f"observer-raised/{op[0]}-while-{stn}",
+                       "observer-raised/" + ("on_block" if res["blocked"] else "on_permit"),
+                       "observer-raised/" + ("BaseException" if cb_of(op) == "base" else "Exception")]
+                if c["gate"] != "and":
+                    ks.append(f"observer-raised/gate={c['gate']}")
+                if a["trips"] > b["trips"]:
+                    ks.append("observer-raised/request-tripped-the-breaker")
+                if b["state"] in (1, 2) and a["state"] == 0:
+                    ks.append("observer-raised/probe-closed")
             if b["cache"] >= self.CAP and oc not in ("refused", "cache_hit", "exception") and a["cache"] == b["cache"]:
                 ks.append("cache-entry-evicted-at-cap")
             if a["trips"] > b["trips"]:
